@@ -5,6 +5,7 @@ import (
 	"go/constant"
 	"go/token"
 	"go/types"
+	"sort"
 	"strings"
 
 	"golang.org/x/tools/go/ssa"
@@ -668,7 +669,24 @@ func c10r7(c *Ctx, id string) {
 		fmt.Sprintf("a registration does not simply replace the follower's entry, or the table has another writer (%d Store, %d Delete): %s — a follower that restarts under its old name is not admitted", nStore, nDelete, strings.Join(bad, "; ")))
 	// heart-beat: removed ⇔ ping failed
 	nPing := 0
+	// the heart-beat loop with the helpers it calls synchronously (and their closures)
+	hbSet := map[*ssa.Function]bool{}
 	for _, f := range withAnon(hb) {
+		hbSet[f] = true
+		for g := range w.syncCallees(f, 2, false) {
+			if g.Pkg == hb.Pkg && g != rem && g != add {
+				for _, a := range withAnon(g) {
+					hbSet[a] = true
+				}
+			}
+		}
+	}
+	var hbUnit []*ssa.Function
+	for f := range hbSet {
+		hbUnit = append(hbUnit, f)
+	}
+	sort.Slice(hbUnit, func(i, j int) bool { return fname(hbUnit[i]) < fname(hbUnit[j]) })
+	for _, f := range hbUnit {
 		c.see(f)
 		allInstrs(f, func(in ssa.Instruction) {
 			call, ok := in.(*ssa.Call)
@@ -699,7 +717,7 @@ func c10r7(c *Ctx, id string) {
 	}
 	// every queued name is removed
 	nRem := 0
-	for _, f := range withAnon(hb) {
+	for _, f := range hbUnit {
 		for _, ci := range callsIn(f, rem) {
 			nRem++
 			_ = ci
